@@ -483,10 +483,10 @@ class ProtoSimulation:
             if cause == "other" and P.has_adjacent_nullables(self.p):
                 cause = "adjacent-nullable-items"
             if cause == "other" and P.reuses_types(self.p):
-                cause = "type-reused-by-other-parties"
+                cause = "type-reused-same-sender-other-recipient"
             run.violation("C19", "forecast-differs", "%s:%s" % (kind, cause), "history=%s\nforecast offers %s\nthe grammar allows %s\nextra=%s missing=%s\n%s" % (hist, sorted(got), sorted(want), extra, missing, self.p.to_fan(with_parties=False)))
         if complete_got != complete_want:
-            run.violation("C19", "completeness-flag", "complete-flag-%s%s" % ("set-on-incomplete" if complete_got else "unset-on-complete", ":adjacent-nullable-items" if P.has_adjacent_nullables(self.p) else (":type-reused-by-other-parties" if P.reuses_types(self.p) else "")), "history=%s complete_trees=%d but the history %s a full interaction\n%s" % (hist, len(fr.complete_trees), "is" if complete_want else "is not", self.p.to_fan(with_parties=False)))
+            run.violation("C19", "completeness-flag", "complete-flag-%s%s" % ("set-on-incomplete" if complete_got else "unset-on-complete", ":adjacent-nullable-items" if P.has_adjacent_nullables(self.p) else (":type-reused-same-sender-other-recipient" if P.reuses_types(self.p) else "")), "history=%s complete_trees=%d but the history %s a full interaction\n%s" % (hist, len(fr.complete_trees), "is" if complete_want else "is not", self.p.to_fan(with_parties=False)))
         whose = ("F" if any(k[0] in self.p.fuzzers for k in want) else "") + ("E" if any(k[0] in self.p.externals for k in want) else "")
         pend = len(self.io.receive)
         run.state((hash(st) & 0xFFFFFF, whose, min(pend, 3), s.fault[0] if s.fault else None))
@@ -653,10 +653,10 @@ def forecast_walk(run: Run, sim: "ProtoSimulation", f) -> None:
             if cause == "other" and P.has_adjacent_nullables(sim.p):
                 cause = "adjacent-nullable-items"
             if cause == "other" and P.reuses_types(sim.p):
-                cause = "type-reused-by-other-parties"
+                cause = "type-reused-same-sender-other-recipient"
             run.violation("C19", "forecast-differs", "%s:%s" % (kind, cause), "walk history=%s\nforecast offers %s\nthe grammar allows %s\nextra=%s missing=%s\n%s" % (hist, sorted(got), sorted(want), extra, missing, sim.p.to_fan(with_parties=False)))
         if complete_got != complete_want:
-            run.violation("C19", "completeness-flag", "complete-flag-%s%s" % ("set-on-incomplete" if complete_got else "unset-on-complete", ":adjacent-nullable-items" if P.has_adjacent_nullables(sim.p) else (":type-reused-by-other-parties" if P.reuses_types(sim.p) else "")), "walk history=%s complete_trees=%d but the history %s a full interaction\n%s" % (hist, len(fr.complete_trees), "is" if complete_want else "is not", sim.p.to_fan(with_parties=False)))
+            run.violation("C19", "completeness-flag", "complete-flag-%s%s" % ("set-on-incomplete" if complete_got else "unset-on-complete", ":adjacent-nullable-items" if P.has_adjacent_nullables(sim.p) else (":type-reused-same-sender-other-recipient" if P.reuses_types(sim.p) else "")), "walk history=%s complete_trees=%d but the history %s a full interaction\n%s" % (hist, len(fr.complete_trees), "is" if complete_want else "is not", sim.p.to_fan(with_parties=False)))
         run.state((hash(st) & 0xFFFFFF, "walk", len(hist)))
         # continue along an option both sides agree on (so that the walk stays inside the language)
         both = sorted(got & want)
